@@ -3,6 +3,18 @@
                                trees are rearranged one after the other with the SAME
                                NNIRearranger value, as cmd/nni.go does for a multi-tree input;
                                every tree is judged on its own, exactly as a single tree
+           ((tree T) (ops (A U A U)))   the operations done on every proposal object inside the
+                               callback instead of Apply, Undo; props carry (steps (((op A)
+                               (err e) (tree T) (audit ..) (nw s)) ...)), one entry per operation
+           ((tree T) (collect (i ...)) [(ops ..)])   the callback only keeps the proposal
+                               objects; after Rearrange returned they are visited (operations
+                               as above, default A U) in the order of the entries < n of the
+                               list; every visit carries (idx i).
+    The model follows the [applied] flag of the nni object ([run_ops], [enumerate_ops]).  The
+    oracle for operations uses the meaning of the flag only: after Apply the tree is this
+    proposal's neighbour (the same at every use of the object), after Undo the original tree
+    and text, never an error; distinctness and coverage are judged on the first use of every
+    object.
     obs :  ((err e) (n k) (orig T) (nw0 s)
             (props (((tree T_i) (audit (...)) (nw s_i)) ...))     -- inside the callback, after Apply
             (final T') (audit (...)) (nwf s'))                    -- after the whole enumeration
@@ -49,10 +61,26 @@ Definition root_split (t : utree) : option (list string) :=
     end
   else None.
 
-Record prop_obs : Type := mkPO { po_tree : utree; po_obs : sexp; po_nw : string }.
+(** one operation on a proposal object and the tree after it *)
+Record step_obs : Type := mkSO { so_op : op; so_err : string; so_tree : utree; so_obs : sexp; so_nw : string }.
+
+Definition dec_op (s : sexp) : option op :=
+  a <- atom_of s ;;
+  if String.eqb a "A" then Some OpApply else if String.eqb a "U" then Some OpUndo else None.
+
+Definition dec_step (s : sexp) : option step_obs :=
+  o <- (x <- get "op" s ;; dec_op x) ;; e <- get_string "err" s ;;
+  g <- get_tree "tree" s ;; nw <- get_string "nw" s ;; Some (mkSO o e g s nw).
+
+(** one visit of a proposal object: its index in the enumeration, the tree after (the first)
+    Apply, and, when the case asks for it, the tree after every operation *)
+Record prop_obs : Type := mkPO { po_tree : utree; po_obs : sexp; po_nw : string;
+                                 po_idx : nat; po_steps : list step_obs }.
 
 Definition dec_prop (s : sexp) : option prop_obs :=
-  g <- get_tree "tree" s ;; nw <- get_string "nw" s ;; Some (mkPO g s nw).
+  g <- get_tree "tree" s ;; nw <- get_string "nw" s ;; i <- get_nat "idx" s ;;
+  st <- match get "steps" s with Some x => dec_list dec_step x | None => Some [] end ;;
+  Some (mkPO g s nw i st).
 
 (** one proposed neighbour against the original; returns the replaced split *)
 Definition neighbour_check (t : utree) (i : nat) (p : prop_obs) : string + split :=
@@ -140,6 +168,66 @@ Definition oracle (t : utree) (o : sexp) (ps : list prop_obs) : option string :=
   | _, _, _, _, _ => Some "undecodable observation"
   end.
 
+(** the first visit of every proposal object *)
+Fixpoint firsts (seen : list nat) (ps : list prop_obs) : list prop_obs :=
+  match ps with
+  | [] => []
+  | p :: r => if existsb (Nat.eqb (po_idx p)) seen then firsts seen r
+              else p :: firsts (po_idx p :: seen) r
+  end.
+
+(** oracle for the operations on one object, from the meaning of the [applied] flag only:
+    after an Apply the tree is the neighbour of this proposal (always the same one), after an
+    Undo it is the original tree, text included; no operation reports an error *)
+Fixpoint steps_check (pre : string) (g0 : utree) (nw0 : string) (nb : utree) (nbw : string)
+         (k : nat) (sts : list step_obs) : option string :=
+  match sts with
+  | [] => None
+  | st :: r =>
+    let here := pre ++ "operation " ++ string_of_nat k ++ (match so_op st with OpApply => " (Apply): " | OpUndo => " (Undo): " end) in
+    if negb (String.eqb (so_err st) "") then Some (here ++ "error " ++ so_err st)
+    else match audit_ok (so_obs st) with
+         | Some m => Some (here ++ m)
+         | None =>
+           match so_op st with
+           | OpApply =>
+             if negb (utree_eqb (so_tree st) nb && String.eqb (so_nw st) nbw)
+             then Some (here ++ "the tree is not the neighbour this proposal gave before: " ++ so_nw st)
+             else steps_check pre g0 nw0 nb nbw (S k) r
+           | OpUndo =>
+             if negb (utree_eqb (so_tree st) g0 && String.eqb (so_nw st) nw0)
+             then Some (here ++ "the original tree is not restored: " ++ so_nw st)
+             else steps_check pre g0 nw0 nb nbw (S k) r
+           end
+         end
+  end.
+
+Fixpoint visits_check (g0 : utree) (nw0 : string) (fs : list prop_obs) (nops : option nat) (k : nat) (ps : list prop_obs)
+  : option string :=
+  match ps with
+  | [] => None
+  | p :: r =>
+    let pre := "visit " ++ string_of_nat k ++ " of proposal " ++ string_of_nat (po_idx p) ++ ": " in
+    match find (fun f => Nat.eqb (po_idx f) (po_idx p)) fs with
+    | None => Some (pre ++ "harness: unknown proposal")
+    | Some f =>
+      if negb (utree_eqb (po_tree f) (po_tree p))
+      then Some (pre ++ "the same proposal object gives another tree than at its first use: " ++ po_nw p)
+      else if match nops with Some n => negb (Nat.eqb n (length (po_steps p))) | None => false end
+      then Some (pre ++ "harness: number of operations")
+      else match steps_check pre g0 nw0 (po_tree f) (po_nw f) 1 (po_steps p) with
+           | Some m => Some m
+           | None => visits_check g0 nw0 fs nops (S k) r
+           end
+    end
+  end.
+
+Definition oracle_visits (o : sexp) (nops : option nat) (ps : list prop_obs) : option string :=
+  match get_tree "orig" o, get_string "nw0" o with
+  | Some g0, Some nw0 => visits_check g0 nw0 (firsts [] ps) nops 1 ps
+  | _, _ => Some "undecodable observation"
+  end.
+
 (** model against Go: proposals one by one, then the final tree *)
 Fixpoint corr_list (i : nat) (ms : list utree) (ps : list prop_obs) : option string :=
   match ms, ps with
@@ -154,41 +242,116 @@ Fixpoint corr_list (i : nat) (ms : list utree) (ps : list prop_obs) : option str
                     ++ string_of_nat (i + length ps))
   end.
 
+Definition corr_final (tf : utree) (o : sexp) : option string :=
+  match get_tree "final" o, get_string "nwf" o with
+  | Some gf, Some nwf =>
+    if negb (utree_eqb tf gf) then Some ("final tree, model: " ++ show_utree tf)
+    else if negb (String.eqb (writeC tf) nwf) then Some ("final text, model: " ++ writeC tf)
+    else None
+  | _, _ => Some "no final tree"
+  end.
+
 Definition correspondence (t : utree) (o : sexp) (ps : list prop_obs) : option string :=
   match rearrange t with
   | None => Some "model: a rearrangement is not applicable"
   | Some (ms, tf) =>
     match corr_list 0 ms ps with
     | Some m => Some m
-    | None =>
-      match get_tree "final" o, get_string "nwf" o with
-      | Some gf, Some nwf =>
-        if negb (utree_eqb tf gf) then Some ("final tree, model: " ++ show_utree tf)
-        else if negb (String.eqb (writeC tf) nwf) then Some ("final text, model: " ++ writeC tf)
-        else None
-      | _, _ => Some "no final tree"
+    | None => corr_final tf o
+    end
+  end.
+
+(** operations on kept objects: the model's tree after every operation of every visit *)
+Fixpoint corr_steps (v k : nat) (ms : list utree) (sts : list step_obs) : option string :=
+  match ms, sts with
+  | [], [] => None
+  | m :: mr, st :: sr =>
+    let here := "visit " ++ string_of_nat v ++ " operation " ++ string_of_nat k in
+    if negb (utree_eqb m (so_tree st))
+    then Some (here ++ ", model: " ++ show_utree m ++ " implementation: " ++ show_utree (so_tree st))
+    else if negb (String.eqb (writeC m) (so_nw st))
+    then Some (here ++ " text, model: " ++ writeC m ++ " implementation: " ++ so_nw st)
+    else corr_steps v (S k) mr sr
+  | _, _ => Some ("visit " ++ string_of_nat v ++ ": model has " ++ string_of_nat (k - 1 + length ms)
+                    ++ " operations, implementation " ++ string_of_nat (k - 1 + length sts))
+  end.
+
+Fixpoint corr_visits (v : nat) (mls : list (list utree)) (order : list nat) (ps : list prop_obs) : option string :=
+  match mls, order, ps with
+  | [], [], [] => None
+  | ml :: mr, i :: ir, p :: pr =>
+    if negb (Nat.eqb i (po_idx p))
+    then Some ("visit " ++ string_of_nat v ++ ": model visits proposal " ++ string_of_nat i ++ ", implementation "
+                 ++ string_of_nat (po_idx p))
+    else match corr_steps v 1 ml (po_steps p) with
+         | Some m => Some m
+         | None => corr_visits (S v) mr ir pr
+         end
+  | _, _, _ => Some ("model has " ++ string_of_nat (v - 1 + length mls) ++ " visits, implementation "
+                       ++ string_of_nat (v - 1 + length ps))
+  end.
+
+Definition correspondence_ops (t : utree) (o : sexp) (ops : list op) (collect : option (list nat))
+           (ps : list prop_obs) : option string :=
+  let n := length (nni_list t) in
+  let order := match collect with
+               | Some perm => filter (fun i => Nat.ltb i n) perm
+               | None => seq 0 n
+               end in
+  match get_nat "n" o with
+  | None => Some "no proposal count"
+  | Some gn =>
+    if negb (Nat.eqb gn n)
+    then Some ("model has " ++ string_of_nat n ++ " proposals, implementation " ++ string_of_nat gn)
+    else
+    match pick t order with
+    | None => Some "model: internal"
+    | Some rs =>
+      match enumerate_ops ops rs t with
+      | None => Some "model: an operation is not applicable"
+      | Some (mls, tf) =>
+        match corr_visits 1 mls order ps with
+        | Some m => Some m
+        | None => corr_final tf o
+        end
       end
     end
   end.
 
+(** the case's operations stay inside the property: some Apply, and the object is left undone *)
+Fixpoint ops_flag (fl : bool) (ops : list op) : bool :=
+  match ops with
+  | [] => fl
+  | OpApply :: r => ops_flag true r
+  | OpUndo :: r => ops_flag false r
+  end.
+Definition ops_ok (ops : list op) : bool :=
+  existsb (fun o => match o with OpApply => true | _ => false end) ops && negb (ops_flag false ops).
+
 (** one tree against its observation *)
-Definition judge_one (t : utree) (o : sexp) : verdict :=
+Definition judge_one (t : utree) (o : sexp) (ops : option (list op)) (collect : option (list nat)) : verdict :=
   match get "panic" o with
   | Some m => VOracle ("the implementation panicked: " ++ match m with Atom a => a | _ => "" end)
   | None =>
     match get_string "err" o, (x <- get "props" o ;; dec_list dec_prop x) with
     | Some gerr, Some ps =>
-      let co := correspondence t o ps in
+      let plain := match ops, collect with None, None => true | _, _ => false end in
+      let ops' := match ops with Some l => l | None => [OpApply; OpUndo] end in
+      if negb (ops_ok ops') then VBad "operations outside the domain of the check" else
+      let co := if plain then correspondence t o ps else correspondence_ops t o ops' collect ps in
       let agree := match co with
                    | None => " [the model agrees with the implementation]"
                    | Some m => " [the model differs: " ++ m ++ "]" end in
       if negb (String.eqb gerr "") then VOracle ("the implementation reports an error: " ++ gerr ++ agree)
-      else match oracle t o ps with
+      else match first_some [oracle t o (firsts [] ps);
+                             oracle_visits o (if plain then None else Some (length ops')) ps] with
            | Some m => VOracle (m ++ agree)
            | None =>
              match co with
              | Some m => VCorr m
-             | None => VOk (negb (Nat.eqb (length ps) 0)) (if rooted t then "rooted" else "unrooted")
+             | None => VOk (negb (Nat.eqb (length ps) 0))
+                           (if plain then (if rooted t then "rooted" else "unrooted")
+                            else match collect with Some _ => "kept" | None => "ops" end)
              end
            end
     | _, _ => VBad "undecodable observation"
@@ -218,7 +381,7 @@ Definition label (i n : nat) (v : verdict) : verdict :=
 
 Fixpoint judge_seq (i n : nat) (ts : list utree) (os : list sexp) : list verdict :=
   match ts, os with
-  | t :: tr, o :: or => label i n (judge_one t o) :: judge_seq (S i) n tr or
+  | t :: tr, o :: or => label i n (judge_one t o None None) :: judge_seq (S i) n tr or
   | _, _ => []
   end.
 
@@ -251,7 +414,13 @@ Definition judge (c o : sexp) : verdict :=
     end
   | None =>
     match get_tree "tree" c with
-    | Some t => judge_one t o
+    | Some t =>
+      let ops := match get "ops" c with Some x => dec_list dec_op x | None => None end in
+      let collect := match get "collect" c with Some x => dec_list dec_nat x | None => None end in
+      match get "ops" c, ops with
+      | Some _, None => VBad "undecodable operations"
+      | _, _ => judge_one t o ops collect
+      end
     | None => VBad "undecodable case or observation"
     end
   end.
